@@ -203,9 +203,10 @@ func runDop(o dop, c apd.Context, d, x, y *apd.Decimal) (out runOut) {
 		out.err = err.Error()
 	}
 	out.obs = obsStr(d)
-	if (err != nil && res == 0) || extra == "skipped" {
-		// An error without a Condition means no result was delivered (an internal step failed or a
-		// system limit was hit): the destination's content is then unspecified and is not compared.
+	if (err != nil && (res == 0 || res&(apd.SystemOverflow|apd.SystemUnderflow) != 0)) || extra == "skipped" {
+		// An error without a Condition, or with a system-limit Condition, means no result was delivered
+		// (an internal step failed or a package exponent limit was hit): the destination's content is
+		// then unspecified and is not compared.
 		out.obs = "(no result delivered)"
 	}
 	return
